@@ -136,8 +136,49 @@ def wire_form(prog: Program, cls, exact: bool = False) -> set[str]:
         CAST = ("call", C.sattr("origin"), (val,), ())
         STR = ("call", ("ref", "builtins.str"), (val,), ())
         atoms = T.derive_atoms(list(p.guards()) + list(extra))
-        class_known = lambda x: any(val_ and a[0] == "cmp" and a[1] == "is" and (("attr", x, "__class__") in a[2:4] or ("call", ("ref", "builtins.type"), (x,), ()) in a[2:4]) for a, val_ in atoms)  # noqa: E731
+        STRX = ("call", ("ref", "builtins.str.__str__"), (val,), ())  # the characters of a str instance, whatever its class prints
+        PAT = ("attr", val, "pattern")
+
+        def denotes(b, x):
+            """`b` is x, or a conditional expression one of whose alternatives is x."""
+            return b == x or (b[0] == "ifexp" and any(a == x for a, _ in alternatives(b)))
+
+        def class_known(x):
+            for a, val_ in atoms:
+                if val_ and a[0] == "cmp" and a[1] == "is":
+                    for side in a[2:4]:
+                        if (side[0] == "attr" and side[2] == "__class__" and denotes(side[1], x)) or (T.is_call_to(side, "builtins.type") and len(side[2]) == 1 and denotes(side[2][0], x)):
+                            return True
+            return False
+
         tested = any(val_ and T.is_call_to(a, "builtins.isinstance") and a[2][:1] == (val,) for a, val_ in atoms)
+        is_text = [val_ for a, val_ in atoms if T.is_call_to(a, "builtins.isinstance") and a[2] == (val, ("ref", "builtins.str"))]
+        # exact text: str.__str__(<text>) where <text> is str(val) / str.__str__(val) / val.pattern (or a choice between those)
+        if r[0] == "call" and T.refname(r[1]) == "builtins.str.__str__" and len(r[2]) == 1 and not r[3]:
+            inner = [a for a, _ in alternatives(r[2][0])]
+            if r[2][0] == val and is_text == [True]:
+                forms.add("str")
+                continue
+            if inner and all(a in (STR, STRX) for a in inner):
+                forms.add("str")
+                continue
+            if inner == [PAT]:
+                forms.add("pattern" if tested or not exact else "pattern-unguarded")
+                continue
+        if exact and r == STR and is_text != [False] and cls.name == "ToStringMarshaller":
+            # (str(val) asks the class how it *prints*: a str instance is written as its characters)
+            forms.add("str-printed")
+            continue
+        if exact and r == PAT and tested:
+            exact_or_not_text = class_known(PAT) or any((not val_) and T.is_call_to(a, "builtins.isinstance") and a[2] == (PAT, ("ref", "builtins.str")) for a, val_ in atoms) or any((not val_) and a[0] == "cmp" and a[1] == "is" and ("attr", PAT, "__class__") in a[2:4] for a, val_ in atoms) is False
+            known_exact = class_known(PAT) or any((not val_) and T.is_call_to(a, "builtins.isinstance") and a[2] == (PAT, ("ref", "builtins.str")) for a, val_ in atoms)
+            del exact_or_not_text
+            # (`x if isinstance(p, str) and p.__class__ is not str else p`: where the conjunction failed, p is no str or an exact one)
+            raw_guards = list(p.guards()) + list(extra)
+            if any((not pol) and g[0] == "boolop" and g[1] == "and" and any(T.is_call_to(o, "builtins.isinstance") and o[2] == (PAT, ("ref", "builtins.str")) for o in g[2]) and any(T.contains(o, lambda y: y == ("attr", PAT, "__class__")) for o in g[2]) for g, pol in raw_guards):
+                known_exact = True
+            forms.add("pattern" if known_exact else "pattern-raw")
+            continue
         if r[0] == "call" and T.refname(r[1]) in ("builtins.bool", "builtins.int", "builtins.float") and r[2] == (CAST,) and not r[3]:
             forms.add("cast")
             continue
